@@ -188,6 +188,142 @@ theorem segEnum_no_restart_cut (hc : ∀ s, prm.criterion s = false) (en : En) (
 
 end noRestart
 
+
+section more
+variable {prm : Params En P} {T : St → P → St × Except E (Bool × Score)}
+  {tp : P → Except E (Bool × Score)} {Inv : St → Prop}
+
+/-- a run that is out of fuel consumed one entry of the segmented enumeration per unit of fuel -/
+theorem outOfFuel_length (hT : RefinesS T tp Inv) : ∀ (fuel : Nat) (s : RSolver P) (st : St) (en : En) (pos : Nat)
+    (dl as : List Bool), Inv st →
+    (driveR prm T (advanceR prm T fuel s st en pos dl) as).status = .outOfFuel →
+    (segRun prm tp fuel s en pos).length = fuel := by
+  intro fuel
+  induction fuel with
+  | zero => intro s st en pos dl as _ _; rfl
+  | succ fuel ih =>
+    intro s st en pos dl as hst
+    rw [advanceR_succ]
+    cases hs : prm.stream en pos with
+    | none => simp [driveR_finished]
+    | some p =>
+      simp only
+      by_cases hd : deadlinePassed dl = true
+      · simp [hd, driveR_finished]
+      · simp only [hd, if_false, Bool.false_eq_true]
+        rcases stepR_cases hT st p hst with ⟨st', er, hT', htp, hinv⟩ | ⟨st', b, sc, hT', htp, hinv⟩
+        · simp [hT', driveR_finished]
+        · simp only [hT', segRun_ok hs htp, List.length_cons]
+          cases b with
+          | false =>
+            simp only [Bool.false_eq_true, if_false]
+            intro h; rw [ih _ st' _ _ dl.tail as hinv h]
+          | true =>
+            simp only [if_true]
+            cases as with
+            | nil => simp [driveR]
+            | cons a as' =>
+              cases a with
+              | true => simp [driveR, sendR, driveR_finished]
+              | false =>
+                simp only [driveR, sendR, Bool.false_eq_true, if_false]
+                intro h; rw [ih _ st' _ _ dl.tail as' hinv h]
+
+theorem closeR_restarts (fx : Bool) (s : RSolver P) (p : P) : (closeR fx s p).restarts = s.restarts := by
+  cases fx <;> rfl
+
+/-- with a criterion that never fires, `_restarts` never changes -/
+theorem no_restart_restarts (hc : ∀ s, prm.criterion s = false) : ∀ (fuel : Nat) (s : RSolver P) (st : St) (en : En)
+    (pos : Nat) (dl as : List Bool),
+    (driveR prm T (advanceR prm T fuel s st en pos dl) as).solver.restarts = s.restarts := by
+  have haft : ∀ (s : RSolver P) (p : P) (en : En) (pos : Nat), (afterTest prm s p en pos).1.restarts = s.restarts := by
+    intro s p en pos
+    obtain ⟨s2, _, _, _, h4, _, _, h | h⟩ := afterTest_cases prm s p en pos
+    · rw [h.2]; exact h4
+    · rw [hc s2] at h; cases h.1
+  intro fuel
+  induction fuel with
+  | zero => intro s st en pos dl as; simp [advanceR, driveR_running]
+  | succ fuel ih =>
+    intro s st en pos dl as
+    rw [advanceR_succ]
+    cases hs : prm.stream en pos with
+    | none => simp [driveR_finished]
+    | some p =>
+      simp only
+      by_cases hd : deadlinePassed dl = true
+      · simp [hd, driveR_finished, closeR_restarts]
+      · simp only [hd, if_false, Bool.false_eq_true]
+        generalize T st p = r
+        obtain ⟨st', a⟩ := r
+        cases a with
+        | error er => simp [driveR_finished, countedS]
+        | ok v =>
+          obtain ⟨b, sc⟩ := v
+          cases b with
+          | false =>
+            simp only [Bool.false_eq_true, if_false]
+            rw [ih, haft]; rfl
+          | true =>
+            simp only [if_true]
+            cases as with
+            | nil => simp [driveR, testedS, countedS]
+            | cons a as' =>
+              cases a with
+              | true => simp [driveR, sendR, driveR_finished, closeR_restarts, testedS, countedS]
+              | false =>
+                simp only [driveR, sendR, Bool.false_eq_true, if_false]
+                rw [ih, haft]; rfl
+
+/-- the restart solver writes `statsBase + _programs` into `_stats["programs"]` exactly when it
+    closes the task -/
+theorem r_stats : ∀ (fuel : Nat) (s : RSolver P) (st : St) (en : En) (pos : Nat) (dl as : List Bool),
+    ((driveR prm T (advanceR prm T fuel s st en pos dl) as).status = .finished .accepted ∨
+     (driveR prm T (advanceR prm T fuel s st en pos dl) as).status = .finished .timeout) →
+    (driveR prm T (advanceR prm T fuel s st en pos dl) as).solver.self.statsPrograms =
+      statsBase prm.fixStats s + (driveR prm T (advanceR prm T fuel s st en pos dl) as).solver.self.programs := by
+  intro fuel
+  induction fuel with
+  | zero => intro s st en pos dl as; simp [advanceR, driveR_running]
+  | succ fuel ih =>
+    intro s st en pos dl as
+    rw [advanceR_succ]
+    cases hs : prm.stream en pos with
+    | none => cases hfx : prm.fixNext <;> simp [driveR_finished, hfx]
+    | some p =>
+      simp only
+      by_cases hd : deadlinePassed dl = true
+      · simp [hd, driveR_finished, closeR_statsPrograms, closeR_programs]
+      · simp only [hd, if_false, Bool.false_eq_true]
+        generalize T st p = r
+        obtain ⟨st', a⟩ := r
+        cases a with
+        | error er => simp [driveR_finished]
+        | ok v =>
+          obtain ⟨b, sc⟩ := v
+          have hfr : statsBase prm.fixStats (afterTest prm (testedS s sc) p en (pos + 1)).1 =
+              statsBase prm.fixStats s :=
+            statsBase_frame ((frame_testedS s sc).trans (frame_afterTest prm _ _ _ _))
+          cases b with
+          | false =>
+            simp only [Bool.false_eq_true, if_false]
+            intro h; rw [ih _ st' _ _ dl.tail as h, hfr]
+          | true =>
+            simp only [if_true]
+            cases as with
+            | nil => simp [driveR]
+            | cons a as' =>
+              cases a with
+              | true =>
+                intro _
+                simp only [driveR, sendR, if_true, driveR_finished, closeR_statsPrograms, closeR_programs]
+                rw [statsBase_frame (frame_testedS s sc)]
+              | false =>
+                simp only [driveR, sendR, Bool.false_eq_true, if_false]
+                intro h; rw [ih _ st' _ _ dl.tail as' h, hfr]
+
+end more
+
 /-- the segmented enumeration of `solve(task, en)` called on the solver object `s`, with `fuel` loop
     iterations: entries (program, enumerator, position, solver object at the loop head) -/
 def segOf [DecidableEq V] (prm : Params En P) (k : Kind) (spec : P → I → Outcome V E) (exs : List (I × V))
